@@ -6,6 +6,7 @@ Props/C05AStar `estimator_inconsistent_*`.)  Proof: `bends` depends on the point
 of the displacement (Lemmas/Bends `bends_tbl`); one finite table check over signs × headings.
 -/
 import AdaptaVerif.Lemmas.Bends
+import AdaptaVerif.Model.AStar
 namespace AdaptaVerif.Lemmas.AStarEstimate
 open AdaptaVerif.Model.Bends AdaptaVerif.Spec.OrthPath AdaptaVerif.Lemmas.Bends
 open AdaptaVerif.Model.Geometry (Pt)
@@ -243,5 +244,76 @@ theorem estimate_consistent (last curr next tar : Pt) (cd nd : Dir) (dirs : Nat)
         rw [add_mul, hturnEq]
       rw [this] at hmul
       linarith
+
+end AdaptaVerif.Lemmas.AStarEstimate
+
+/-! ### the search's heuristic `estimatedCost`: minimum over the cost targets of estimate + displacement -/
+namespace AdaptaVerif.Lemmas.AStarEstimate
+open AdaptaVerif.Model.Bends AdaptaVerif.Spec.OrthPath AdaptaVerif.Lemmas.Bends
+open AdaptaVerif.Model.Geometry (Pt)
+open AdaptaVerif.Model.AStar (Graph costTargets estimatedCost minOpt)
+
+theorem mapM_pair {α : Type} (F1 F2 : α → Option Rat) (K : Rat) (l : List α)
+    (h : ∀ a ∈ l, ∃ x y, F1 a = some x ∧ F2 a = some y ∧ x ≤ K + y) :
+    ∃ xs ys, l.mapM F1 = some xs ∧ l.mapM F2 = some ys ∧ List.Forall₂ (fun x y => x ≤ K + y) xs ys ∧
+      xs.length = l.length := by
+  induction l with
+  | nil => exact ⟨[], [], by simp, by simp, List.Forall₂.nil, rfl⟩
+  | cons a rest ih =>
+    obtain ⟨x, y, h1, h2, hxy⟩ := h a (List.mem_cons_self ..)
+    obtain ⟨xs, ys, e1, e2, hf, hlen⟩ := ih (fun b hb => h b (List.mem_cons_of_mem _ hb))
+    refine ⟨x :: xs, y :: ys, ?_, ?_, List.Forall₂.cons hxy hf, by simp [hlen]⟩
+    · simp [List.mapM_cons, h1, e1]
+    · simp [List.mapM_cons, h2, e2]
+
+theorem minOpt_pair (K : Rat) (xs ys : List Rat) (h : List.Forall₂ (fun x y => x ≤ K + y) xs ys)
+    (hne : xs ≠ []) : ∃ m1 m2, minOpt xs = some m1 ∧ minOpt ys = some m2 ∧ m1 ≤ K + m2 := by
+  induction h with
+  | nil => exact absurd rfl hne
+  | @cons x y xs' ys' hxy hrest ih =>
+    cases hrest with
+    | nil => exact ⟨x, y, by simp [minOpt], by simp [minOpt], hxy⟩
+    | @cons x2 y2 xs2 ys2 h2 hr2 =>
+      obtain ⟨m1, m2, e1, e2, hm⟩ := ih (by simp)
+      refine ⟨if x < m1 then x else m1, if y < m2 then y else m2, ?_, ?_, ?_⟩
+      · simp only [minOpt] at e1 ⊢; rw [e1]
+      · simp only [minOpt] at e2 ⊢; rw [e2]
+      · split_ifs <;> linarith
+
+theorem costTargets_ne_nil (g : Graph) : costTargets g ≠ [] := by
+  unfold costTargets
+  simp only
+  split
+  · simp
+  · rename_i h; intro h2; rw [h2] at h; simp at h
+
+/-- **Consistency of the search's heuristic** `AStarPathPrivate::estimatedCost` (minimum over all cost
+    targets of `estimatedCostSpecific` + displacement) with the orthogonal `cost()`, on every hop with a
+    single heading that does not double back and does not end at the point of a cost target. -/
+theorem estimatedCost_consistent (g : Graph) (hpen : 0 < g.segPen) (last curr next : Pt) (cd nd : Dir)
+    (hcd : orthogonalDirection last curr = cd.mask) (hnd : orthogonalDirection curr next = nd.mask)
+    (hnr : nd ≠ cd.rev) (hnt : ∀ ct ∈ costTargets g, next ≠ g.pt ct.1) :
+    ∃ e1 e2, estimatedCost g (some last) curr = some e1 ∧ estimatedCost g (some curr) next = some e2 ∧
+      e1 ≤ manhattanDist curr next + (if nd = cd then 0 else g.segPen) + e2 := by
+  have hall : ∀ ct ∈ costTargets g, ∃ x y,
+      ((estimatedCostSpecific (some last) curr (g.pt ct.1) ct.2.1 g.segPen).map (· + ct.2.2)) = some x ∧
+      ((estimatedCostSpecific (some curr) next (g.pt ct.1) ct.2.1 g.segPen).map (· + ct.2.2)) = some y ∧
+      x ≤ (manhattanDist curr next + (if nd = cd then 0 else g.segPen)) + y := by
+    intro ct hct
+    obtain ⟨e1, e2, h1, h2, hle⟩ :=
+      estimate_consistent last curr next (g.pt ct.1) cd nd ct.2.1 g.segPen hpen hcd hnd hnr (hnt ct hct)
+    exact ⟨e1 + ct.2.2, e2 + ct.2.2, by rw [h1]; rfl, by rw [h2]; rfl, by linarith⟩
+  obtain ⟨xs, ys, m1, m2, hf, hlen⟩ := mapM_pair _ _ _ _ hall
+  have hne : xs ≠ [] := by
+    intro hx
+    rw [hx] at hlen
+    have hl := costTargets_ne_nil g
+    cases hc : costTargets g with
+    | nil => exact hl hc
+    | cons a rest => rw [hc] at hlen; simp at hlen
+  obtain ⟨a, b, ha, hb, hab⟩ := minOpt_pair _ xs ys hf hne
+  refine ⟨a, b, ?_, ?_, hab⟩
+  · unfold estimatedCost; rw [m1]; exact ha
+  · unfold estimatedCost; rw [m2]; exact hb
 
 end AdaptaVerif.Lemmas.AStarEstimate
